@@ -37,11 +37,11 @@ def run_shard(ctx, spec):
                max_states=spec.get('max_states'))
     elif spec['w'] == 'probe':
         for k in range(spec['walks']):
-            ex.walk_probe(rnd.choice([2, 2, 3, 3, 4]), maxlen=70, jumpoff_prefix=bool(spec.get('jo')))
+            ex.walk_probe(rnd.choice([2, 2, 3, 3, 4, 5]), maxlen=70, jumpoff_prefix=bool(spec.get('jo')))
         ctx.count('eval.probed-calls', ex.probed)
     else:
         for k in range(spec['walks']):
-            ex.walk(rnd.choice([1, 2, 2, 3, 3, 4]), maxlen=120)
+            ex.walk(rnd.choice([1, 2, 2, 3, 3, 4, 5, 6]), maxlen=rnd.choice([120, 120, 260]), max_reg=rnd.choice([4, 4, 8]))
     ctx.nt_bulk(ex.states)
     ctx.info['states'] = ex.states
     ctx.info['transitions'] = ex.transitions
